@@ -3,24 +3,22 @@
  "name": "mode_xlate",
  "props": ["C18"],
  "level": "U/k",
- "tier": "wip",
+ "tier": "quick",
  "harness": "h_mode_xlate",
  "enforce": ["mode_xlate"],
  "includes": ["debugfs", "lib/ss"],
  "unwind": 11,
+ "static_keep": ["mode_table"],
  "unwind_reason": "mode_table is a constant table of 9 entries + terminator; unwinding assertions on",
  "functions": ["debugfs/dump.c:mode_xlate"],
- "assumes": ["Linux host: the native S_I* permission constants are the POSIX octal values"],
+ "assumes": ["mode_table keeps its initialiser (static_keep): no code in debugfs/dump.c writes it", "Linux host: the native S_I* permission constants are the POSIX octal values"],
  "native": false
 }
 */
 /*
- * STAYS "wip" (tool limitation, not a defect): goto-instrument --dfcc (which the driver always runs) havocs every
- * non-const static object, so the file-static initialised table mode_table[] is seen with arbitrary contents
- * and the loop neither terminates within the bound nor maps the bits.  Stating the table contents as an
- * assumption would make the unit blind to the only place an error can sit.  Needs a driver mode that keeps
- * static initialisers (e.g. no --dfcc for units without contracts on callees, or cbmc without nondet statics).
- * The contract and harness below are complete and pass when the static havoc is disabled by hand.
+ * mode_table[] is a file-static initialised table that dump.c only reads (it is referenced in mode_xlate alone);
+ * DFCC would havoc it like every static object, so the unit keeps its initialiser ("static_keep" →
+ * goto-instrument --nondet-static-exclude mode_table).  A change to the table contents is therefore seen.
  *
  * Property statement C18: extraction returns "read/write/execute permission bits".  mode_xlate maps exactly
  * the nine rwx bits one-to-one and yields nothing else; set-uid/set-gid/sticky (07000) are dropped - the
